@@ -220,6 +220,29 @@ pub fn resp_case(rec: &mut Rec, rng: &mut Rng, spec: &RespSpec, with_sink: bool)
         }
     }
     rec.op(&op, &hx(&bytes));
+    // the public getters
+    {
+        let r = spec.build();
+        let code = std::str::from_utf8(&r.status().raw()[..]).unwrap_or("?").to_string();
+        let allow: Vec<&str> = r.allow().iter().map(|m| show_method(*m)).collect();
+        let body = match r.body() {
+            Some(b) => hx(b.raw()),
+            None => "-".to_string(),
+        };
+        rec.op(
+            &format!("respget {}", spec.proto()),
+            &format!(
+                "st={} v={} cl={} ct={} dep={} allow=[{}] body={}",
+                code,
+                show_version(r.http_version()),
+                r.content_length(),
+                show_media(r.content_type()),
+                b01(r.deprecation()),
+                allow.join(","),
+                body
+            ),
+        );
+    }
     if with_sink {
         // the same bytes however the sink splits the writes
         let mut sched = vec![];
